@@ -94,6 +94,44 @@ theorem C28_string_verbatim (s : String) : strV (.str s) = s ∧ strV (.some (.s
   · simp [strV]
   · simp [strV, String.append_assoc]
 
+theorem foldl_formatAppend (vs : List Val) (acc : String) :
+    vs.foldl (fun acc w => formatAppend (.str acc) w) acc = acc ++ String.join (vs.map render) := by
+  induction vs generalizing acc with
+  | nil => simp
+  | cons w vs ih =>
+    rw [List.foldl_cons, ih, C28_format_append_spec]
+    simp only [render, List.map_cons, String.join_cons, String.append_assoc]
+
+/-- a chain `v1 .. v2 .. … .. vn` renders as the texts of its operands one after the other -/
+theorem C28_format_chain_spec (vs : List Val) : formatChain vs = String.join (vs.map render) := by
+  cases vs with
+  | nil => simp [formatChain]
+  | cons v vs => simp only [formatChain, foldl_formatAppend, C28_str_eq_render, List.map_cons, String.join_cons]
+
+/-- the documented text of one rendering statement -/
+def Stmt.spec : Stmt → String
+  | .print v => render v
+  | .println v => render v ++ "\n"
+  | .str v => render v
+  | .chain vs => String.join (vs.map render)
+  | .lit s => s
+
+/-- Rendering is observationally pure: a program that renders the same values any number of times, by any
+    mix of `print`, `println`, `ToString.str` and `..`, prints for each statement the documented text of its
+    operands — the k-th rendering of a value is the same text as the first, whatever was rendered in between
+    (values, in particular strings reachable from several places, are never changed by being rendered). -/
+theorem C28_rendering_is_pure (l : List Stmt) : emitAll l = String.join (l.map Stmt.spec) := by
+  unfold emitAll
+  congr 1
+  apply List.map_congr_left
+  intro s _
+  cases s with
+  | print v => exact (C28_print_spec v).1
+  | println v => exact (C28_print_spec v).2
+  | str v => exact C28_str_eq_render v
+  | chain vs => exact C28_format_chain_spec vs
+  | lit s => rfl
+
 -- the statement is about concrete text: a nested sample evaluated through the model
 example : strV (.arr [.tup2 (.int 1) (.str "a, b"), .tup2 (.int (-2)) (.str "")]) = "[ (1, a, b), (-2, ) ]" := by
   simp [strV, helper, stringFromInt]; rfl
